@@ -5,7 +5,7 @@ from vlib.core import Machinery
 
 LEVEL = "model_checking"
 
-SAFETY_MUTANTS = ["RedoSkipDrain", "DropSafeOld", "NoIngest", "LoseReadAhead", "SpoolDropNoCount", "DropNoCount"]
+SAFETY_MUTANTS = ["RedoSkipDrain", "DropSafeOld", "NoIngest", "DeadDropNoCount", "LoseReadAhead", "SpoolDropNoCount", "DropNoCount"]
 
 
 def run(ctx):
@@ -25,7 +25,9 @@ def run(ctx):
     # on the real code), and every named deviation violates Conservation: non-vacuity
     tiny = dict(base, Q=1, IOB=1, KB=1, RT=1)
     r = destlib.mc(ctx, "Destination_c07.cfg", dict(tiny, FixRedoWaits=False), expect={"Conservation", "QuiescentBound"}, count=False)
-    for m in (SAFETY_MUTANTS[:3] if q else SAFETY_MUTANTS):
+    # (DeadDropNoCount: a send that finds In full on a connection that died after the loop-top aliveness check returns
+    # without counting -- the interleaving the dead-send scenarios below force on the real code)
+    for m in (SAFETY_MUTANTS[:4] if q else SAFETY_MUTANTS):
         destlib.mc(ctx, "Destination_c07.cfg", dict(tiny, Mutant=m), expect={"Conservation", "QuiescentBound", "Conservation_steady"}, count=False)
 
     # 2. real destinations with spool=true against endpoint incarnations on one port
@@ -56,6 +58,8 @@ def run(ctx):
                 if e.get("scn") == sid and e["ev"] == "final":
                     e["skip_loss"] = True
 
+    dsgates = {e["scn"]: e for e in events if e["ev"] == "dsgate"}
+
     # 3. TLC decides: LossBound, drain, intactness
     def on_reject(rec, src, block):
         s = byid.get(src.get("scn"), {})
@@ -74,10 +78,15 @@ def run(ctx):
                 sig = "redo-race-window"         # same race hit without the gate
             else:
                 sig = "uncounted-loss schedule=" + s.get("name", "?").split("-")[0]
+            dsg = dsgates.get(src.get("scn"))
+            extra = ""
+            if dsg:
+                extra = ("; gated schedule: line %s came from %s and met a connection that had died after the loop-top check with In full (%d/%d)"
+                         % (dsg.get("line", "?").split(" ")[0], dsg["src"], dsg.get("in_len", -1), dsg.get("in_cap", -1)))
             ctx.violation(sig, "%d of %d handed lines never received but slow_conn+slow_spool=%d (first missing ids %s; lines in a "
-                          "writer's hand when GetAll ran: %s)" % (fin.get("missing_n"), fin.get("handed"), rec["slow_conn"] + rec["slow_spool"],
-                                                                  fin.get("missing_first"), f10[:3]),
-                          dict(scenario=s, final=fin))
+                          "writer's hand when GetAll ran: %s%s)" % (fin.get("missing_n"), fin.get("handed"), rec["slow_conn"] + rec["slow_spool"],
+                                                                  fin.get("missing_first"), f10[:3], extra),
+                          dict(scenario=s, final=fin, dsgate=dsg))
         elif rec["ev"] == "drain":
             ctx.violation("backlog-not-drained", "endpoint stayed up but the spool did not drain: depth=%s buffered=%s" % (rec["depth"], rec["buffered"]),
                           dict(scenario=s, final=fin))
@@ -96,6 +105,13 @@ def run(ctx):
     ctx.cov["f10_gate_order"] = gates[0]["order"]
     if gates[0]["order"] == "timeout":
         raise Machinery("the gated F10 schedule did not reach the redo collector")
+    # the dead-send gate must have gone through its phases in every dead-send scenario (a gate that does not fire is a
+    # fault of the machinery, never a verdict)
+    dss = [s for s in scns if s["name"].startswith("deadsend-")]
+    bad = [dict(scenario=s["name"], gate=dsgates.get(s["id"])) for s in dss if dsgates.get(s["id"], {}).get("outcome") != "fired"]
+    if bad and not ctx.violations:
+        raise Machinery("dead-send gate did not fire: %s" % json.dumps(bad[:3]))
+    ctx.cov["dead_send_gates_fired"] = len(dss) - len(bad)
 
     # 4. binding self-tests
     def m1(recs):
@@ -160,7 +176,8 @@ def run(ctx):
     if (not redo or not unsp) and not ctx.violations:
         raise Machinery("vacuous run: no scenario exercised redo (%d) / unspooling (%d)" % (len(redo), len(unsp)))
     cov["rule"] = ("scenarios = endpoint up/down schedules on one port (before first connect, single, repeated, during unspooling, "
-                   "connections cut, traffic only while down, gated F10 schedule, seeded random) with traffic before/during/after each "
+                   "connections cut, traffic only while down, gated F10 schedule, gated dead-send schedules (connection dies between the relay's "
+                   "aliveness check and the hand-over, In full; connbuf 0/1/2 x line from dest.In / from the spool), seeded random) with traffic before/during/after each "
                    "transition; evaluations = lines handed; every scenario's received id ranges and final counters decided by "
                    "DestinationTrace.tla (LossBound, drain, intact); distinct_nontrivial = scenarios in which lines went through the spool")
     f0 = fl[0]
